@@ -13,10 +13,13 @@ def cfg_line(kind='wl', cmin=0, cmax=3, q=4, ncl=1, scale=1, lazy=0, perturb=0, 
 
 def gen_script(rng, ncl, nops, nf=NF, work3=0.06, pauses=0.1, long_pause=0.0, works=(0, 0, 1, 2), destroy=0.04):
     """Random admissible client scripts.  Every future belongs to one client (f mod ncl).
-    A call with work 3 (waits for abort()) is always aborted before anything waits for it."""
+    A call with work 3 (its function polls isAborting()) is started by any client; until that client has
+    called abort() on it, it only aborts, queries and pauses (FutureSpec.valid_script: then the function
+    terminates for every pool size and queue capacity)."""
     ops = []
     futs = {c: [f for f in range(nf) if f % ncl == c] for c in range(ncl)}
     pending3 = set()      # futures whose current call waits for abort
+    pend = {}             # client -> its future whose call waits for abort
     arg = rng.randrange(1000)
     for _ in range(nops):
         c = rng.randrange(ncl)
@@ -24,23 +27,31 @@ def gen_script(rng, ncl, nops, nf=NF, work3=0.06, pauses=0.1, long_pause=0.0, wo
             continue
         f = rng.choice(futs[c])
         r = rng.random()
-        if f in pending3:
-            # only abort, check, or pause are admissible until the abort has been requested
-            if r < 0.6:
+        if c in pend:
+            # only abort, check, or pause are admissible for this client until the abort has been requested
+            g = pend[c]
+            if r < 0.5:
+                ops.append('c %d abort %d' % (c, g))
+                pending3.discard(g)
+                del pend[c]
+            elif r < 0.6:
                 ops.append('c %d abort %d' % (c, f))
-                pending3.discard(f)
+                if f == g:
+                    pending3.discard(g)
+                    del pend[c]
             elif r < 0.8:
-                ops.append('c %d check %d' % (c, f))
+                ops.append('c %d check %d' % (c, rng.choice([f, g])))
             else:
                 ops.append('c %d pause %d' % (c, rng.randrange(3)))
             continue
         if r < 0.42:
             arg += 1 + rng.randrange(5)
-            w = 3 if (rng.random() < work3 and c == 0 and len(pending3) < 2) else rng.choice(works)
+            w = 3 if rng.random() < work3 else rng.choice(works)
             verb = 'start' if rng.random() < 0.8 else rng.choice(START_VARIANTS)
             ops.append('c %d %s %d %d %d' % (c, verb, f, arg * (1 if rng.random() < 0.9 else -1), w))
             if w == 3:
                 pending3.add(f)
+                pend[c] = f
         elif r < 0.58:
             ops.append('c %d join %d' % (c, f))
         elif r < 0.72:
@@ -79,6 +90,8 @@ PROFILES = {
     'lifetime': ['w prebc fut * * 1000000 sleep 250 700'],
     # POSIX allows pthread_cond_wait to return without a signal: one wait in four does, on every
     # condition variable (the Futures' and the pool's); the worker is slow to publish the completion
+    # the started function is slow to begin (so that what the client does next - destroy, start - comes first)
+    'resultslot': ['w job fut * * 1000000 sleep 300 600'],
     'spurious': ['* cwait * * * 1000000 spurious 250', 'w pre fut * * 1000000 sleep 150 500'],
 }
 
@@ -87,23 +100,25 @@ def profile_lines(name):
     return ['c 0 gate rule %d %s' % (i, r) for i, r in enumerate(PROFILES[name])]
 
 
+STRING_VARIANTS = ['start', 'startf3', 'startf4', 'startm2', 'startm3']   # what harness/future.cpp has for Future<String>
 START_VARIANTS = ['start', 'startf0', 'startf1', 'startf3', 'startf4', 'startf5', 'startm0', 'startm1', 'startm2', 'startm3', 'startm4']
 
 
 def gen_variants(rng, ncl, ncalls):
     """Every overload of Future<A>::start and Future<void>::start (free functions of arity 0-5, member
-    functions of arity 0-4) on Future<int64> slots 0-7 and Future<void> slots 8-15; results and echoes
-    taken right away.  The same calls for model and spec."""
+    functions of arity 0-4) on Future<int64> slots 0-7 and Future<void> slots 8-15, and the overloads the
+    harness has for Future<String> (slots 56-59: String / const String& parameters, int arguments for int64
+    parameters); results and echoes taken right away.  The same calls for model and spec."""
     ops = []
     a = rng.randrange(1000)
     for _ in range(ncalls):
         c = rng.randrange(ncl)
-        f = rng.choice([f for f in range(16) if f % ncl == c])
+        f = rng.choice([f for f in list(range(16)) + [56, 57, 58, 59] if f % ncl == c])
         a += 1 + rng.randrange(9)
         arg = a if rng.random() < 0.85 else -a
-        ops.append('c %d %s %d %d %d' % (c, rng.choice(START_VARIANTS), f, arg, rng.choice([0, 0, 0, 1, 2])))
+        ops.append('c %d %s %d %d %d' % (c, rng.choice(START_VARIANTS if f < 56 else STRING_VARIANTS), f, arg, rng.choice([0, 0, 0, 1, 2])))
         k = rng.randrange(5)
-        if k == 0 and f < 8:
+        if k == 0 and (f < 8 or f >= 56):
             ops += ['c %d get %d' % (c, f)]
         elif k == 1:
             ops += ['c %d join %d' % (c, f), 'c %d check %d' % (c, f)]
@@ -128,13 +143,17 @@ def gen_reuse(rng, ncl, ncalls):
         for rep_ in range(rng.choice([2, 2, 3, 4])):
             a += 1 + rng.randrange(9)
             ops.append('c %d %s %d %d %d' % (c, rng.choice(['start', 'start', 'startf3', 'startm2']), f, a, rng.choice([0, 0, 1])))
-            k = rng.randrange(6)
+            k = rng.randrange(8)
             if k <= 2:
                 ops.append('c %d get %d' % (c, f))
             elif k == 3:
                 ops += ['c %d join %d' % (c, f), 'c %d get %d' % (c, f)]
             elif k == 4:
                 ops += ['c %d join %d' % (c, f), 'c %d check %d' % (c, f), 'c %d get %d' % (c, f)]
+            elif k == 6:     # after an abort: the result is still the call's, the next start clears the request
+                ops += ['c %d abort %d' % (c, f), 'c %d get %d' % (c, f), 'c %d check %d' % (c, f)]
+            elif k == 7:
+                ops += ['c %d abort %d' % (c, f)]          # the next start joins the aborted call
             # k == 5: the next start joins
         ops.append('c %d get %d' % (c, f))
     return ops
@@ -185,6 +204,37 @@ def gen_lifetime(rng, ncl, ncalls, nf=NF):
             ops += ['c %d destroy %d' % (c, f)]                      # the destructor does the join
         else:
             ops += ['c %d join %d' % (c, f), 'c %d get %d' % (c, f), 'c %d check %d' % (c, f), 'c %d destroy %d' % (c, f), 'c %d check %d' % (c, f)]
+    return ops
+
+
+def gen_strings(rng, ncl, ncalls):
+    """Future<String> (slots 56-63): a result type with a destructor and heap storage.  The result slot is
+    written by the worker and destroyed by ~Future<A> - after its join().  `destroy` right after `start`
+    (the destructor does the only join) on an object whose result slot already holds a heap value, and
+    after a first `get`; String and converted (int -> int64) arguments."""
+    ops = []
+    a = rng.randrange(1000)
+    for _ in range(ncalls):
+        c = rng.randrange(ncl)
+        f = rng.choice([f for f in range(56, 64) if f % ncl == c])
+        a += 1 + rng.randrange(7)
+        st = lambda w: 'c %d %s %d %d %d' % (c, rng.choice(STRING_VARIANTS), f, a if rng.random() < 0.9 else -a, w)
+        k = rng.randrange(6)
+        if k <= 1:
+            ops += [st(rng.choice([0, 1])), 'c %d get %d' % (c, f)]
+            a += 1
+            ops += [st(rng.choice([1, 2, 2])), 'c %d destroy %d' % (c, f)]
+        elif k == 2:
+            ops += [st(rng.choice([0, 1, 2])), 'c %d destroy %d' % (c, f)]
+        elif k == 3:
+            ops += [st(rng.choice([0, 1])), 'c %d join %d' % (c, f), 'c %d check %d' % (c, f), 'c %d get %d' % (c, f)]
+            a += 1
+            ops += [st(rng.choice([0, 2])), 'c %d get %d' % (c, f)]
+        elif k == 4:
+            ops += [st(rng.choice([0, 1])), 'c %d get %d' % (c, f), 'c %d destroy %d' % (c, f), 'c %d check %d' % (c, f)]
+        else:
+            ops += [st(rng.choice([1, 2])), 'c %d abort %d' % (c, f), 'c %d join %d' % (c, f), 'c %d check %d' % (c, f),
+                    'c %d get %d' % (c, f), 'c %d destroy %d' % (c, f)]
     return ops
 
 
@@ -395,9 +445,11 @@ class C10(Check):
         return Check.shrink(self, case, pred, budget=min(budget, 60))
 
     hangs_seen = 0
+    crashes_seen = 0
+    crash_limit = 150
     short_timeout = 6
     hang_limit = 8
-    NOT_RUN = 'not-run (the watchdog has expired on %d cases of this run already)'
+    NOT_RUN = 'not-run (%d cases of this run have hung or crashed already)'
 
     def run_impl(self, cases, tag='impl'):
         """The standard runner, in chunks (10, 20, 40 … 400 cases; back to 10 after a hang).  Once two
@@ -409,8 +461,9 @@ class C10(Check):
         res, crashes = [], {}
         a, step = 0, 10
         while a < len(cases):
-            if self.hangs_seen >= self.hang_limit:
-                res += [[self.NOT_RUN % self.hangs_seen] for _ in cases[a:]]
+            if self.hangs_seen >= self.hang_limit or self.crashes_seen >= self.crash_limit:
+                # a tree on which (nearly) every case hangs or crashes: what has been seen is reported, the rest is not run
+                res += [[self.NOT_RUN % (self.hangs_seen + self.crashes_seen)] for _ in cases[a:]]
                 break
             to = self.per_case_timeout if self.hangs_seen < 2 else self.short_timeout
             if all(any(' w job fut ' in l for l in c) for c in cases[a:a + step]):
@@ -424,30 +477,50 @@ class C10(Check):
                 if v[0] == 'timeout':
                     self.hangs_seen += 1
                     hung = True
+                else:
+                    self.crashes_seen += 1
             a += step
             step = 10 if hung else min(400, step * 2)
         return res, crashes
 
     def property_fails(self, case):
         # re-runs for the report and the shrinker: always executed, short watchdog once two cases hung
-        saved = self.hangs_seen
+        saved, savedc = self.hangs_seen, self.crashes_seen
         self.hangs_seen = min(saved, 2)
+        self.crashes_seen = 0
         try:
             return Check.property_fails(self, case)
         finally:
-            self.hangs_seen = saved
+            self.hangs_seen, self.crashes_seen = saved, savedc
 
     def judge(self, cases, impl_obs, spec_obs):
         """Spec comparison; a case that does not come to an end (the harness's watchdog prints the
         pool's state as a `deadlock …` line before the process is killed) gets a reason that says so."""
         fails = []
+        # `st FA` of the spec = after a join during whose call abort() was requested: exactly one of
+        # isFinished() / isAborted() holds, the text does not say which
+        spec2 = []
+        for s, o in zip(spec_obs, impl_obs):
+            s = list(s)
+            for k, l in enumerate(s):
+                if ' st FA ' in l and k < len(o):
+                    m = re.search(r' st ([FA]) ', o[k])
+                    if m:
+                        s[k] = l.replace(' st FA ', ' st %s ' % m.group(1))
+            spec2.append(s)
+        spec_obs = spec2
         for (i, k, reason) in Check.judge(self, cases, impl_obs, spec_obs):
             if impl_obs[i] and impl_obs[i][0].startswith('not-run'):
                 continue
             dl = [l for l in impl_obs[i] if l.startswith('deadlock ')]
             nested = any(re.match(r'c \d+ start\w* \d+ -?\d+ ([4-9]|\d\d)$', l) for l in cases[i])
-            m = re.search(r'queue.head=(\d+) queue.tail=(\d+) .* deq.state=0 deq.flag=0', dl[0]) if dl else None
-            if dl and nested and m and int(m.group(2)) > int(m.group(1)):
+            # the OPEN finding and nothing else: the queue is full (tail - head == capacity), EVERY worker of the
+            # pool stands inside the start() call of a started function (the harness counts them), nobody has
+            # signalled a pop.  A hang with a worker asleep or idle (an enqueue-side lost wake-up has the same
+            # counters otherwise) is reported as a hang.
+            m = re.search(r'capacity=(\d+) nested_in_start=(\d+) queue.head=(\d+) queue.tail=(\d+) .* deq.state=0 deq.flag=0 .* threads=(\d+) ', dl[0]) if dl else None
+            if (dl and nested and m and int(m.group(4)) - int(m.group(3)) == int(m.group(1))
+                    and int(m.group(2)) == int(m.group(5)) and int(m.group(2)) >= 1):
                 reason = ('started function blocked in start() on a full queue (open finding): every worker waits in ThreadPool::run for a '
                           'pop that only workers perform; the watchdog reports `%s`' % dl[0])
             elif dl:
@@ -594,6 +667,14 @@ class C10(Check):
             cases.append([cfg_line(cmin=rng.choice([0, 1]), cmax=rng.choice([3, 4]), q=64, ncl=ncl, perturb=rng.choice([0, 1, 2]), seed=sd())]
                          + gen_nested(rng, ncl, rng.randrange(4, 14)))
         out.append(Stream('nested', cases, note='started functions start another future themselves; queue capacity 64 (never full)'))
+        # 14. Future<String>: the result slot has a destructor and heap storage
+        cases = []
+        for i in range(15 * mul):
+            ncl = rng.choice([1, 1, 2])
+            prof = profile_lines(rng.choice(['resultslot', 'resultslot', 'handshake'])) if i % 3 else []
+            cases.append([cfg_line(cmin=rng.choice([0, 1]), cmax=3, q=rng.choice([1, 2, 4]), ncl=ncl, perturb=0 if prof else rng.choice([0, 1, 2]), seed=sd())]
+                         + prof + gen_strings(rng, ncl, rng.randrange(3, 9)))
+        out.append(Stream('strings', cases, note='Future<String>: start, get, start again, delete the Future right away (the destructor joins, then the result slot dies); String / int arguments'))
         # the open finding (a worker blocked in start() on a full queue): its witness runs only while
         # known_findings.json lists it as open, and then prints KNOWN-FINDING
         if any(k.get('status') == 'open' and k.get('witness') == OPEN_NESTED for k in self.known_findings()):
